@@ -679,7 +679,7 @@ func (x *Exec) assignedIn(nodes ...ast.Node) map[types.Object]bool {
 			case *ast.CallExpr:
 				unknown := x.callMayModify(s, add)
 				if unknown {
-					for o := range x.closureAssignedBefore(s.Pos()) {
+					for o := range x.closureAssignedBefore(s.End()) {
 						out[o] = true
 					}
 				}
